@@ -470,6 +470,10 @@ class ChargingNetwork(BaseSimObj):
         if time_indices is not None:
             schedule_matrix = schedule_matrix[:, time_indices]
 
+        # A network without constraints has no aggregate currents.
+        if self.constraint_matrix is None:
+            return np.zeros((0,) + schedule_matrix.shape[1:], dtype="complex")
+
         if linear:
             return np.abs(
                 np.abs(self.constraint_matrix[constraint_indices]) @ schedule_matrix
